@@ -4,7 +4,7 @@ namespace SdnsVerif.Gen.C07
 def compare_suffix_probe : List Nat := [2, 2, 2, 1, 0, 1, 1, 2, 2, 1, 0, 2]
 def in_zone_probe : List Bool := [true, true, true, false, false, false, false, true, true, false, true, false]
 def progressing_probe : List Bool := [true, false, false, false, false, false, false, false, true, false, true, false]
-def question_match_probe : List Bool := [true, true, false, false, false, false, true, false]
+def question_match_probe : List Bool := [true, true, false, false, false, false, false, false]
 def shape_addresses_built_only_by_usableAddr : Bool := true
 def shape_answer_clears_sections : Bool := true
 def shape_answer_filters_before_splice : Bool := true
